@@ -696,6 +696,37 @@ Proof.
   intros bk s. apply wp_bind. apply wp_cbd. intros bv s'. apply wp_ret. simp_w. auto.
 Qed.
 
+Lemma unwind_val_spec v : cleans (unwind_val E v) (idV E v).
+Proof.
+  intros w. unfold unwind_val. apply wp_bind. apply wp_emit. apply wp_bind. apply wp_cbd.
+  intros b s. apply wp_ret. simp_w. auto.
+Qed.
+
+(* the two ARGUMENTS k, v of an insert: the value is destroyed first *)
+Lemma unwind_args_spec k v : cleans (unwind_args E k v) (idV E v ++ idK E k).
+Proof.
+  intros w. unfold unwind_args. apply wp_bind. apply wp_emit. apply wp_bind. apply wp_cbd.
+  intros bv s. apply wp_bind. apply wp_cbd. intros bk s'. apply wp_ret. simp_w. auto.
+Qed.
+
+Lemma drop_args_spec k v w :
+  let post := fun w' : world => self w' = self w /\ log w' = log w ++ ev_drops (idV E v ++ idK E k) in
+  wp (drop_args E k v) (fun _ => post) post w.
+Proof.
+  intros post. unfold drop_args. apply wp_bind. apply wp_emit. apply wp_bind. apply wp_cbd.
+  intros bv s. apply wp_bind. apply wp_cbd. intros bk s'.
+  destruct (bv || bk); [apply wp_panic | apply wp_ret]; unfold post; simp_w; auto.
+Qed.
+
+Lemma conserves_drop_args k v : conserves (drop_args E k v) (ids_pair (k, v)) (fun _ => []).
+Proof.
+  intros w Hw. eapply wp_mono; [apply drop_args_spec | |]; cbn beta.
+  - intros _ w' [Hs Hg]. apply cpostN_exact; rewrite ?Hs, ?Hg, ?dropped_log_drops; auto.
+    unfold ids_pair; cbn [fst snd]. perm_ids.
+  - intros w' [Hs Hg]. apply (cpostP_exact _ _ _ []); rewrite ?Hs, ?Hg, ?dropped_log_drops; auto.
+    unfold ids_pair; cbn [fst snd]. perm_ids.
+Qed.
+
 Lemma unwind_pairs_spec l : cleans (unwind_pairs E l) (flat_map ids_pair l).
 Proof.
   induction l as [|p t IH]; intros w; cbn [unwind_pairs flat_map].
@@ -772,16 +803,16 @@ Lemma insert_ii_strong k v u (w : world) :
   WF (self w) ->
   wp (insert_ii E debug k v u)
      (fun r => cpostN w (ids_pair (k, v)) (match snd r with Some p => ids_pair p | None => [] end))
-     (rejected w (ids_pair (k, v))) w.
+     (rejected w (idV E v ++ idK E k)) w.
 Proof.
   intros Hw. unfold insert_ii.
-  apply (wp_uscan_then (unwind_pair E (k, v)) (ids_pair (k, v)));
-    [intros; apply quiet_test_k | apply unwind_pair_spec | exact Hw | | auto].
+  apply (wp_uscan_then (unwind_args E k v) (idV E v ++ idK E k));
+    [intros; apply quiet_test_k | apply unwind_args_spec | exact Hw | | auto].
   intros r w1 Hs Hg Hi.
   assert (Hd : dropped (log w1) = dropped (log w)) by (rewrite Hg; reflexivity).
   assert (Hw1 : WF (self w1)) by (rewrite Hs; exact Hw).
   eapply wp_mono with (Qn := fun r => cpostN w1 (ids_pair (k, v)) (match snd r with Some p => ids_pair p | None => [] end))
-                      (Qp := rejected w1 (ids_pair (k, v))).
+                      (Qp := rejected w1 (idV E v ++ idK E k)).
   2: { intros b w2 H2. exact (cpostN_base _ _ _ _ _ Hs Hd H2). }
   2: { intros w2 H2. exact (rejected_base _ _ _ _ Hs Hg H2). }
   rewrite <- Hs in Hi. clear Hs Hg Hd Hw. destruct r as [i|].
@@ -791,8 +822,8 @@ Proof.
     + apply wp_bind. eapply wp_p_replace; [exact Hp|]. apply wp_ret. cbn [snd].
       apply (cpostN_replace w1 i p); auto. unfold ids_pair; cbn [fst snd]. perm_ids.
   - apply wp_bind. apply wp_get_len. apply wp_bind. apply wp_get_cap.
-    assert (Hrej : wp (unwind_pair E (k, v)) (fun _ => rejected w1 (ids_pair (k, v))) (rejected w1 (ids_pair (k, v))) w1).
-    { apply (wp_cleans _ (ids_pair (k, v))); [apply unwind_pair_spec|]. intros w' Hs Hg. split; assumption. }
+    assert (Hrej : wp (unwind_args E k v) (fun _ => rejected w1 (idV E v ++ idK E k)) (rejected w1 (idV E v ++ idK E k)) w1).
+    { apply (wp_cleans _ (idV E v ++ idK E k)); [apply unwind_args_spec|]. intros w' Hs Hg. split; assumption. }
     apply wp_bind. apply wp_on_unwind. apply wp_bind. apply wp_dbg_assert.
     + intros _. apply wp_check_index.
       * intros Hc. apply wp_bind. apply wp_p_write_checked; [intros _ | intros Hge; lia].
@@ -808,23 +839,24 @@ Lemma conserves_insert_ii k v u :
 Proof.
   intros w Hw. eapply wp_mono; [apply insert_ii_strong; exact Hw | |]; cbn beta.
   - intros r w' H. exact H.
-  - intros w' H. apply (rejected_cpostP w w' (ids_pair (k, v)) []); auto. perm_ids.
+  - intros w' H. apply (rejected_cpostP w w' (idV E v ++ idK E k) []); auto.
+    unfold ids_pair; cbn [fst snd]. perm_ids.
 Qed.
 
 Lemma insert_ii_for_full_strong k v u (w : world) :
   WF (self w) ->
   wp (insert_ii_for_full E k v u)
      (fun r => cpostN w (ids_pair (k, v)) (match r with Some (_, p) => ids_pair p | None => [] end))
-     (rejected w (ids_pair (k, v))) w.
+     (rejected w (idV E v ++ idK E k)) w.
 Proof.
   intros Hw. unfold insert_ii_for_full.
-  apply (wp_uscan_then (unwind_pair E (k, v)) (ids_pair (k, v)));
-    [intros; apply quiet_test_k | apply unwind_pair_spec | exact Hw | | auto].
+  apply (wp_uscan_then (unwind_args E k v) (idV E v ++ idK E k));
+    [intros; apply quiet_test_k | apply unwind_args_spec | exact Hw | | auto].
   intros r w1 Hs Hg Hi.
   assert (Hd : dropped (log w1) = dropped (log w)) by (rewrite Hg; reflexivity).
   assert (Hw1 : WF (self w1)) by (rewrite Hs; exact Hw).
   eapply wp_mono with (Qn := fun r => cpostN w1 (ids_pair (k, v)) (match r with Some (_, p) => ids_pair p | None => [] end))
-                      (Qp := rejected w1 (ids_pair (k, v))).
+                      (Qp := rejected w1 (idV E v ++ idK E k)).
   2: { intros b w2 H2. exact (cpostN_base _ _ _ _ _ Hs Hd H2). }
   2: { intros w2 H2. exact (rejected_base _ _ _ _ Hs Hg H2). }
   rewrite <- Hs in Hi. clear Hs Hg Hd Hw. destruct r as [i|].
@@ -833,9 +865,10 @@ Proof.
       apply (cpostN_replace w1 i p); auto. perm_ids.
     + apply wp_bind. eapply wp_p_replace; [exact Hp|]. apply wp_ret.
       apply (cpostN_replace w1 i p); auto. unfold ids_pair; cbn [fst snd]. perm_ids.
-  - apply wp_bind. eapply wp_mono; [apply drop_pair_spec | |]; cbn beta.
+  - apply wp_bind. eapply wp_mono; [apply drop_args_spec | |]; cbn beta.
     + intros _ w2 [Hs Hg]. apply wp_ret.
-      apply cpostN_exact; rewrite ?Hs, ?Hg, ?dropped_log_drops; auto. perm_ids.
+      apply cpostN_exact; rewrite ?Hs, ?Hg, ?dropped_log_drops; auto.
+      unfold ids_pair; cbn [fst snd]. perm_ids.
     + intros w2 [Hs Hg]. split; assumption.
 Qed.
 
@@ -845,7 +878,8 @@ Lemma conserves_insert_ii_for_full k v u :
 Proof.
   intros w Hw. eapply wp_mono; [apply insert_ii_for_full_strong; exact Hw | |]; cbn beta.
   - intros r w' H. exact H.
-  - intros w' H. apply (rejected_cpostP w w' (ids_pair (k, v)) []); auto. perm_ids.
+  - intros w' H. apply (rejected_cpostP w w' (idV E v ++ idK E k) []); auto.
+    unfold ids_pair; cbn [fst snd]. perm_ids.
 Qed.
 
 Lemma conserves_keep_value e :
@@ -872,7 +906,7 @@ Qed.
 Lemma insert_panic_cases k v (w : world) :
   WF (self w) ->
   wp (insert E debug k v) (fun _ _ => True)
-     (fun w' => rejected w (ids_pair (k, v)) w' \/
+     (fun w' => rejected w (idV E v ++ idK E k) w' \/
                 exists (w1 : world) k' v', cpostN w (ids_pair (k, v)) (ids_pair (k', v')) w1 /\
                                  self w' = self w1 /\ log w' = log w1 ++ ev_drops (idK E k')) w.
 Proof.
@@ -1250,8 +1284,9 @@ Proof.
       destruct u.
       * apply wp_bind. apply wp_p_write; [simp_w; rewrite Hs; exact Hc|]. apply wp_ret. cbn [snd]. exact Hfin.
       * apply wp_bind. apply wp_p_write; [simp_w; rewrite Hs; exact Hc|]. apply wp_ret. cbn [snd]. exact Hfin.
-  - intros w' [Hs Hg]. apply (wp_cleans _ (ids_pair (k, v))); [apply unwind_pair_spec|].
-    intros w'' Hs' Hg'. apply (rejected_cpostP w w'' (ids_pair (k, v)) []); [exact Hw | perm_ids |].
+  - intros w' [Hs Hg]. apply (wp_cleans _ (idV E v ++ idK E k)); [apply unwind_args_spec|].
+    intros w'' Hs' Hg'.
+    apply (rejected_cpostP w w'' (idV E v ++ idK E k) []); [exact Hw | unfold ids_pair; cbn [fst snd]; perm_ids |].
     split; congruence.
 Qed.
 
@@ -1312,12 +1347,94 @@ Proof.
       * intros _. exact IH.
 Qed.
 
+(* destructors that run WHILE UNWINDING over slots [i, i+n): never panic, every element is
+   destroyed exactly once *)
+Lemma unwind_range_acct n : forall i (w : world),
+  (forall j, i <= j < i + n -> live (self w) j) ->
+  wp (unwind_range E n i)
+     (fun _ w' => len (self w') = len (self w) /\ cap (self w') = cap (self w) /\ acct w w' [] [] [] /\
+                  (forall j, j < i \/ i + n <= j -> nth_error (slots (self w')) j = nth_error (slots (self w)) j) /\
+                  (forall j, i <= j < i + n -> nth_error (slots (self w')) j = Some None))
+     (fun _ => False) w.
+Proof.
+  induction n as [|n IH]; intros i w Hl; cbn [unwind_range].
+  - apply wp_ret. split; [reflexivity|]. split; [reflexivity|]. split; [unfold acct; perm_ids|].
+    split; [auto | intros j Hj; lia].
+  - destruct (Hl i ltac:(lia)) as [p Hp].
+    assert (Hic : i < length (slots (self w))) by (apply nth_error_Some; rewrite Hp; discriminate).
+    apply wp_bind. eapply wp_p_read; [exact Hp|].
+    pose proof (ids_slots_upd (slots (self w)) i (Some p) None Hp) as HP.
+    apply wp_bind. eapply wp_mono; [apply unwind_pair_spec | |]; cbn beta; [|auto].
+    intros _ w1 [Hs Hg]. simp_w.
+    eapply wp_mono; [apply IH | |]; cbn beta; [| |auto].
+    + intros j Hj. rewrite Hs. apply live_set_slot_neq; [lia | apply Hl; lia].
+    + intros _ w2 (H1 & H2 & H3 & H4 & H5). unfold acct in H3. rewrite Hs in H1, H2, H3, H4.
+      rewrite Hg in H3. rewrite dropped_log_drops in H3.
+      cbn [set_slot_m len slots] in H1, H4. unfold owned in H3; cbn [set_slot_m slots] in H3.
+      split; [exact H1|]. split; [rewrite H2; apply cap_set_slot|].
+      split; [unfold acct, owned; perm_ids|].
+      split.
+      * intros j Hj. rewrite H4 by lia. apply nth_error_upd_neq. lia.
+      * intros j Hj. destruct (Nat.eq_dec i j) as [<-|Hij].
+        -- rewrite H4 by lia. apply nth_error_upd_eq. exact Hic.
+        -- apply H5. lia.
+Qed.
+
+Lemma unwind_map_acct (w : world) :
+  WF (self w) ->
+  wp (unwind_map E)
+     (fun _ w' => len (self w') = len (self w) /\ cap (self w') = cap (self w) /\ acct w w' [] [] [] /\
+                  (forall j, len (self w) <= j -> nth_error (slots (self w')) j = nth_error (slots (self w)) j) /\
+                  (forall j, j < len (self w) -> nth_error (slots (self w')) j = Some None) /\
+                  (Tidy (self w) -> owned (self w') = []))
+     (fun _ => False) w.
+Proof.
+  intros [Hl Hs]. unfold unwind_map. apply wp_bind. apply wp_get_len.
+  eapply wp_mono; [apply unwind_range_acct | |]; cbn beta; [| |auto].
+  - intros j Hj. apply Hs. lia.
+  - intros _ w' (H1 & H2 & H3 & H4 & H5).
+    split; [exact H1|]. split; [exact H2|]. split; [exact H3|].
+    split; [intros j Hj; apply H4; lia|]. split; [intros j Hj; apply H5; lia|].
+    intros Ht. apply ids_slots_all_none.
+    intros j Hne. destruct (Nat.lt_ge_cases j (len (self w))) as [Hlt|Hge].
+    + apply H5. lia.
+    + rewrite H4 in * by lia. apply Ht; assumption.
+Qed.
+
+(* same shape as drop_map_acct_nolost (the panic outcome cannot occur) *)
+Lemma unwind_map_acct_nolost (w : world) :
+  WF (self w) ->
+  wp (unwind_map E) (fun _ w' => acct w w' [] [] []) (fun w' => acct w w' [] [] []) w.
+Proof.
+  intros Hw. eapply wp_mono; [apply unwind_map_acct; exact Hw | |]; cbn beta.
+  - intros _ w' (_ & _ & H & _). exact H.
+  - intros w' [].
+Qed.
+
+(* Drop for Drain while unwinding: the not-yet-yielded rest is destroyed exactly once *)
+Lemma unwind_drain_acct c (w : world) :
+  DrainInv c (self w) ->
+  wp (unwind_drain E c)
+     (fun _ w' => WF (self w') /\ len (self w') = 0 /\ cap (self w') = cap (self w) /\ acct w w' [] [] [] /\
+                  (forall j, j < fst c \/ snd c <= j -> nth_error (slots (self w')) j = nth_error (slots (self w)) j) /\
+                  (forall j, fst c <= j < snd c -> nth_error (slots (self w')) j = Some None))
+     (fun _ => False) w.
+Proof.
+  intros (Hl & Hc & Hs). unfold unwind_drain, cursor_len.
+  eapply wp_mono; [apply unwind_range_acct | |]; cbn beta; [| |auto].
+  - intros j Hj. apply Hs. lia.
+  - intros _ w' (H1 & H2 & H3 & H4 & H5).
+    split; [split; [lia | intros i Hi; lia]|]. split; [lia|]. split; [exact H2|]. split; [exact H3|].
+    split; [intros j Hj; apply H4; lia | intros j Hj; apply H5; lia].
+Qed.
+
+(* finally_drop runs unwind_map on the panic exit *)
 Lemma wp_finally_drop_gen {A} (c : M A) (Qn : A -> world -> Prop) (Qp' Qp : world -> Prop) w :
-  wp c Qn Qp' w -> (forall w', Qp' w' -> wp (drop_map E) (fun _ => Qp) Qp w') ->
+  wp c Qn Qp' w -> (forall w', Qp' w' -> wp (unwind_map E) (fun _ => Qp) Qp w') ->
   wp (finally_drop E c) Qn Qp w.
 Proof.
   unfold wp at 1 3. unfold finally_drop. destruct (c w) as [a w'|w'|]; auto.
-  intros H Hd. specialize (Hd _ H). unfold wp in Hd. destruct (drop_map E w'); auto.
+  intros H Hd. specialize (Hd _ H). unfold wp in Hd. destruct (unwind_map E w'); auto.
 Qed.
 
 Lemma from_iter_acct nx items (w : world) :
@@ -1332,7 +1449,7 @@ Proof.
   apply (wp_finally_drop_gen _ _ (cpostP w (flat_map ids_pair items))).
   - apply conserves_extend_loop. exact Hw.
   - intros w' (Hw' & Hc & lost & HP).
-    eapply wp_mono; [apply drop_map_acct_nolost; exact Hw' | |]; cbn beta.
+    eapply wp_mono; [apply unwind_map_acct_nolost; exact Hw' | |]; cbn beta.
     + intros _ w'' H. exists lost. unfold acct in *. perm_ids.
     + intros w'' H. exists lost. unfold acct in *. perm_ids.
 Qed.
